@@ -8,7 +8,15 @@ against the declarative statements, and exports every case together with the val
 followed by a read must return.  Each case is written with the real writer (once through an open
 file, once through a path: bytes compared), read with the real reader and compared with the
 exported value.  read_trn(processes=k) is replayed under every behaviour of specs/WorkerPool.tla
-through vf/doubles/fakepool.py."""
+through vf/doubles/fakepool.py.
+
+Two further families: "tgu" -- TextGrid tiers whose entries are listed in any order and may overlap or
+nest; the spec fixes the multiset of entries read back, the tier's start / end (earliest start, latest end:
+every entry lies inside them) and, on disjoint entries, the filling computed from those bounds; "trnid" --
+trn lines at character level, utterance ids padded with spaces / tabs on either side (and ids that differ
+only in their padding) come back verbatim, with one worker and under a pool behaviour.  For both a
+deliberately wrong definition (tier = first listed .. last listed; id stripped) is run through TLC and must
+be rejected by the family's invariant."""
 import io
 import os
 import sys
@@ -61,16 +69,30 @@ def _write_both(ctx, site, writer, args, kwargs, case, tag):
 
 # =============================================================================================
 # trn
+# family trnid: characters of an utterance id (0 space, -1 tab, 1.. letters); letters are strings free of
+# white space and of the format's delimiters
+ID_CHAR_TABLES = [{1: "u", 2: "7"}, {1: "spk1", 2: "utt-2"}, {1: "c", 2: "x.y_z"}]
+
+
+def id_str(chars, i):
+    t = dict(ID_CHAR_TABLES[(i // 3) % len(ID_CHAR_TABLES)])
+    t.update({0: " ", -1: "\t"})
+    return "".join(t[c] for c in chars)
+
+
 def trn_build(rec, i):
     tt = _tr.TOKEN_TABLES[i % len(_tr.TOKEN_TABLES)]
-    ut = _tr.TRN_UTT_TABLES[(i // 3) % len(_tr.TRN_UTT_TABLES)]
+    if "ids" in rec:  # family trnid: the ids are part of the exported case
+        ut = [id_str(x, i) for x in rec["ids"]]
+    else:
+        ut = _tr.TRN_UTT_TABLES[(i // 3) % len(_tr.TRN_UTT_TABLES)]
     return tt, ut, [(ut[j], _tr.trn_py(tr, tt)) for j, tr in enumerate(rec["coll"])]
 
 
 def check_trn_case(ctx, rec, i):
     data = _data()
     tt, ut, transcripts = trn_build(rec, i)
-    case = dict(fam="trn", rec=rec, i=i, python=repr(transcripts))
+    case = dict(fam=rec.get("fam", "trn"), rec=rec, i=i, python=repr(transcripts))
     w = _write_both(ctx, "write_trn", data.write_trn, (transcripts,), {}, case, "trn")
     if w is None:
         return
@@ -98,11 +120,16 @@ def check_trn_case(ctx, rec, i):
         ctx.violation(dict(site="read_trn", kind="value"), "unexpected structure: %s (file %r)" % (ex, a[:200]), case)
         return
     if [u for u, _ in got] != exp_utts:
-        ctx.violation(dict(site="read_trn", kind="utterances"),
-                      "utterances %r expected %r" % ([u for u, _ in got], exp_utts), case)
+        sig = dict(site="read_trn", kind="utterances")
+        if [u for u, _ in got] == [u.strip() for u in exp_utts]:
+            sig["cls"] = "id_stripped"  # (the ids come back without their leading / trailing white space)
+        ctx.violation(sig, "utterance ids %r, written %r (file %r)" % ([u for u, _ in got], exp_utts, a[:200]), case)
     elif got_abs != rec["coll"]:
         ctx.violation(dict(site="read_trn", kind="value"),
                       "read %r, written %r (file %r)" % (got, transcripts, a[:200]), case)
+    else:
+        return a.decode()
+    return None
 
 
 def check_trn(ctx, recs):
@@ -113,6 +140,31 @@ def check_trn(ctx, recs):
                  sample=dict(fam="trn", collection=rec["coll"], lexemes=rec["lex"]) if i % 2500 == 7 else None)
         check_trn_case(ctx, rec, i)
         ctx.traces += 1
+
+
+def check_trnid(ctx, recs, schedules):
+    """utterance ids with leading / trailing spaces and tabs (TrnIdRoundTrip): verbatim with one worker, and --
+    for files of several lines -- under a behaviour of WorkerPool.tla"""
+    if not any(any(r["padded"]) for r in recs) or not any(r["twins"] for r in recs):
+        raise MachineryError("the trnid universe holds no padded ids / no ids differing only in padding")
+    inv_tables = [_tr.inv_table(tt) for tt in _tr.TOKEN_TABLES]
+    for i, rec in enumerate(recs):
+        ctx.case(key=("trnid", rec["ids"]), nontrivial=any(rec["padded"]),
+                 sample=dict(fam="trnid", ids=rec["ids"], line_characters=rec["chars"]) if i % 150 == 75 else None)
+        before = len(ctx.violations) + sum(ctx.known_hits.values())
+        text = check_trn_case(ctx, rec, i)
+        ctx.traces += 1
+        n = len(rec["ids"])
+        if text is None or n < 2 or len(ctx.violations) + sum(ctx.known_hits.values()) != before:
+            continue
+        tt, ut, _ = trn_build(rec, i)
+        ws = sorted(W for (nch, W, mode) in schedules if nch == n and mode == "ordered")
+        if not ws:
+            continue
+        expected = [(ut[j], rec["coll"][j]) for j in range(n)]
+        check_pool_case(ctx, text, expected, tt, schedules, (n, ws[i % len(ws)]), i, 1)
+        ctx.traces += 1
+        ctx.evaluations += 1
 
 
 # =============================================================================================
@@ -400,7 +452,9 @@ def check_tg_case(ctx, rec, i, opt_k, tier_k, bounds_k, do_read=True):
     tr_py = [(tt[x["tok"]], x["s"] / 1000.0, (x["s"] + x["d"]) / 1000.0) for x in rec["tr"]]
     tier = TIERS[tier_k]
     kw = tg_kwargs(tr_py, o["opt"], prec, tier, BOUNDS[bounds_k])
-    case = dict(fam="tg", rec=rec, i=i, opt_k=opt_k, tier_k=tier_k, bounds_k=bounds_k, python=repr(tr_py), kwargs=repr(kw))
+    free = rec.get("fam") == "tgu"  # entries listed in any order / overlapping: the order of the returned list is
+    #                                 not part of the verdict, filling only where the spec says it is determined
+    case = dict(fam=rec.get("fam", "tg"), rec=rec, i=i, opt_k=opt_k, tier_k=tier_k, bounds_k=bounds_k, python=repr(tr_py), kwargs=repr(kw))
     w = _write_both(ctx, "write_textgrid", data.write_textgrid, (tr_py,), kw, case, "tg")
     if w is None:
         return
@@ -417,8 +471,8 @@ def check_tg_case(ctx, rec, i, opt_k, tier_k, bounds_k, do_read=True):
     tier_id = tier if (tier is not None and i % 2) else 0
     exp = [(x["tok"], x["s"], x["e"]) for x in o["back"]]
     for fill in (False, True):
-        if fill and (o["point"] or not rec["judge"]):
-            continue  # filling between points / between entries that print identically: not fixed by the property
+        if fill and (o["point"] or not (rec["fillable"] if free else rec["judge"])):
+            continue  # filling between points / between entries that print identically / that overlap: not fixed by the property
         try:
             if (i + opt_k) % 2:
                 got, xmin, xmax = data.read_textgrid(pa, tier_id, tt[FILL] if fill else None)
@@ -434,13 +488,19 @@ def check_tg_case(ctx, rec, i, opt_k, tier_k, bounds_k, do_read=True):
         if got_abs is None:
             ctx.violation(sig, "read %r: not multiples of 10^-%d / unknown token (written %r)" % (got, prec, tr_py), case)
             return
-        if not rec["judge"]:
+        if free or not rec["judge"]:
             if sorted(got_abs) != sorted(want):
-                ctx.violation(sig, "read %r expected (any order) %r in units of 10^-%d s" % (got_abs, want, prec), case)
-            else:
+                ctx.violation(sig, "read %r expected (any order) %r in units of 10^-%d s (written %r, options %r)"
+                              % (got_abs, want, prec, tr_py, kw), case)
+                if free:
+                    return
+            elif not free:
                 ctx.count("informational_tg_order_unjudged")
-            continue
-        if got_abs != want:
+            elif got_abs != want and rec["judge"]:
+                ctx.count("informational_tgu_list_not_chronological")
+            if not free:
+                continue
+        elif got_abs != want:
             if sorted(got_abs) == sorted(want):
                 cls = "string_sort" if got_abs == _string_sorted(want, prec) else "other"
                 ctx.violation(dict(site="read_textgrid", kind="order", cls=cls, fill=fill),
@@ -448,9 +508,25 @@ def check_tg_case(ctx, rec, i, opt_k, tier_k, bounds_k, do_read=True):
                 return  # (filling a mis-ordered tier is the same defect)
             ctx.violation(sig, "read %r expected %r in units of 10^-%d s (written %r, options %r)" % (got_abs, want, prec, tr_py, kw), case)
             return
+        # the tier's start and end are read back with the entries: every entry lies inside them, and -- unless
+        # start_time / end_time were given explicitly -- they are the earliest start / latest end (TguRoundTrip)
         sc = 10 ** prec
-        if abs(xmin * sc - rec["xmin"]) > 1e-6 or abs(xmax * sc - rec["xmax"]) > 1e-6:
-            ctx.count("informational_tg_tier_bounds_differ")
+        lo, hi = xmin * sc, xmax * sc
+        out = [x for x in got_abs if x[1] < lo - 1e-6 or x[2] > hi + 1e-6]
+        differ = abs(lo - rec["xmin"]) > 1e-6 or abs(hi - rec["xmax"]) > 1e-6
+        bsig = dict(site="read_textgrid", fill=fill, listing="chronological" if not free or rec["chrono"] else "free")
+        if out:
+            ctx.violation(dict(bsig, kind="tier_bounds_containment"),
+                          "the tier read back spans [%r, %r] but holds %r (units of 10^-%d s; written %r, options %r)"
+                          % (lo, hi, out, prec, tr_py, kw), case)
+            return
+        if differ and not any(BOUNDS[bounds_k]):
+            ctx.violation(dict(bsig, kind="tier_bounds"),
+                          "tier start / end read back as [%r, %r], earliest start / latest end written [%r, %r] "
+                          "(units of 10^-%d s; written %r, options %r)" % (lo, hi, rec["xmin"], rec["xmax"], prec, tr_py, kw), case)
+            return
+        if differ:
+            ctx.count("informational_tg_tier_bounds_differ_with_explicit_start_end")
 
 
 def check_tg(ctx, recs):
@@ -479,6 +555,31 @@ def check_tg(ctx, recs):
         ctx.traces += 1
     ctx.evaluations += n
     ctx.extra["textgrid_files_written"] = 2 * n
+
+
+def check_tgu(ctx, recs):
+    """tiers whose entries are listed in any order and may overlap (family tgu of the spec)"""
+    if not any(not r["chrono"] and r["fillable"] for r in recs) or not any(not r["fillable"] for r in recs):
+        raise MachineryError("the tgu universe lacks out-of-order disjoint listings / overlapping listings")
+    n = 0
+    for i, rec in enumerate(recs):
+        ctx.case(key=("tgu", rec["tr"], rec["prec"]), nontrivial=not rec["chrono"],
+                 sample=dict(fam="tgu", listing_ms=rec["tr"], precision=rec["prec"], options=rec["opts"],
+                             tier=[rec["xmin"], rec["xmax"]], filled=rec["filled"]) if i % 60 == 31 else None)
+        for opt_k, o in enumerate(rec["opts"]):
+            if not o["legal"]:
+                continue
+            main_tb = ((i + opt_k) % 3, (i + 2 * opt_k) % 4)
+            check_tg_case(ctx, rec, i, opt_k, *main_tb)
+            n += 1
+            if i % 4 == 0:  # the other start/end settings too (the tier's bounds must not depend on them)
+                for bounds_k in range(4):
+                    if bounds_k != main_tb[1]:
+                        check_tg_case(ctx, rec, i, opt_k, main_tb[0], bounds_k)
+                        n += 1
+        ctx.traces += 1
+    ctx.evaluations += n
+    ctx.extra["textgrid_files_written_free_listing"] = 2 * n
 
 
 # =============================================================================================
@@ -643,13 +744,18 @@ def run(ctx):
                 "path, read back and compared with the exported value; read_trn(processes=W) is replayed under "
                 "every behaviour of WorkerPool.tla.  Non-trivial: trn with an alternate or >= 2 tokens/lines; ctm "
                 "whose canonical order differs from the written order or with an explicit map; TextGrid where "
-                "rounding changes a time, a gap is filled or there are >= 2 entries; token round trips with a "
+                "rounding changes a time, a gap is filled or there are >= 2 entries; free listings that are not "
+                "chronological; trn ids with padding; token round trips with a "
                 "token map or a frame shift; pool behaviours whose completion order is not the task order")
     ctx.assumptions += [
-        "tokens and utterance ids are free of the formats' delimiters (space, braces, slash, parentheses, ';;', '\"')",
+        "tokens are free of the formats' delimiters (space, braces, slash, parentheses, ';;', '\"'); utterance ids "
+        "are free of parentheses and newlines (spaces and tabs inside and around trn ids are in the universe)",
         "TextGrid times avoid exact ties at the print precision (the nearest multiple is then unique); entries "
         "that print identically are compared as a multiset",
-        "TextGrid transcripts are chronological and non-overlapping; point_tier=True only for zero-length entries",
+        "point_tier=True only for zero-length entries; for tiers listed out of order or with overlapping entries the "
+        "order of the returned list is informational (multiset compared) and filling is judged only where the entries "
+        "are pairwise disjoint; the tier's start / end are compared with the earliest start / latest end unless "
+        "start_time / end_time were passed (then only containment of the entries is judged)",
         "ctm: the order among tokens with equal start time is left free; the order of utterances in the "
         "returned list is informational",
         "transcript_to_token: out-of-vocabulary tokens only together with an unk setting; the documented frame "
@@ -659,12 +765,13 @@ def run(ctx):
     import time
 
     t0 = time.time()
-    recs, schedules, _ = _tr.run_all(ctx, ["trn", "ctm", "tg", "tok"])
+    recs, schedules, _ = _tr.run_all(ctx, ["trn", "trnid", "ctm", "tg", "tgu", "tok"])
     phases = {"tlc": round(time.time() - t0, 1)}
     ctx.exhaustive = True
-    for name, fn, args in (("trn", check_trn, (recs["trn"],)), ("pool", check_pool, (recs["trn"], schedules)),
+    for name, fn, args in (("trn", check_trn, (recs["trn"],)), ("trnid", check_trnid, (recs["trnid"], schedules)),
+                           ("pool", check_pool, (recs["trn"], schedules)),
                            ("ctm", check_ctm, (recs["ctm"],)), ("tg", check_tg, (recs["tg"],)),
-                           ("tok", check_tok, (recs["tok"],))):
+                           ("tgu", check_tgu, (recs["tgu"],)), ("tok", check_tok, (recs["tok"],))):
         t0 = time.time()
         fn(ctx, *args)
         phases[name] = round(time.time() - t0, 1)
@@ -676,11 +783,11 @@ def run(ctx):
 
 def replay(ctx, case):
     fam = case["fam"]
-    if fam == "trn":
+    if fam in ("trn", "trnid"):
         check_trn_case(ctx, case["rec"], case["i"])
     elif fam == "ctm":
         check_ctm_case(ctx, case["rec"], case["i"])
-    elif fam == "tg":
+    elif fam in ("tg", "tgu"):
         check_tg_case(ctx, case["rec"], case["i"], case["opt_k"], case["tier_k"], case["bounds_k"])
     elif fam == "tok":
         check_tok_case(ctx, case["rec"], case["i"])
